@@ -95,6 +95,9 @@ var pool = [][]string{
 func accountDB() *vuser.DB {
 	return &vuser.DB{
 		Users: []user.User{
+			// the account database DISAGREES with the caches' built-in 0 <-> root pair (first row wins): the built-in
+			// answer is the one that counts, for as long as the cache lives
+			{Uid: "0", Gid: "0", Username: "admin"},
 			{Uid: "0", Gid: "0", Username: "root"},
 			{Uid: "1000", Gid: "1000", Username: "alice"},
 			{Uid: "1000", Gid: "1000", Username: "al"},
@@ -102,6 +105,7 @@ func accountDB() *vuser.DB {
 			{Uid: "48", Gid: "48", Username: "apache"},
 		},
 		Groups: []user.Group{
+			{Gid: "0", Name: "wheel"},
 			{Gid: "0", Name: "root"},
 			{Gid: "1000", Name: "staff"},
 			{Gid: "1000", Name: "st"},
@@ -163,6 +167,7 @@ type c15Viol struct {
 
 // runC15History executes one call history on a fresh pool.
 func runC15History(hist []c15Op) (viol []c15Viol, outcome string) {
+	vtime.Install() // a fresh virtual clock per history
 	fail := func(sig, format string, a ...interface{}) {
 		viol = append(viol, c15Viol{Sig: sig, What: fmt.Sprintf(format, a...), History: append([]c15Op{}, hist...)})
 	}
@@ -201,6 +206,30 @@ func runC15History(hist []c15Op) (viol []c15Viol, outcome string) {
 					events = append(events, &held{e: e, snap: evSnap(e, nil), from: op.Arg})
 				}
 				log = append(log, fmt.Sprintf("%v=%d", op, len(got)))
+			case "tick":
+				// two hours pass (the caches of a history keep entries for one hour; built-in entries never expire)
+				if c := vtime.Installed(); c != nil {
+					c.Advance(2 * time.Hour)
+				}
+				log = append(log, "tick")
+			case "lookup":
+				// the caches' own entry points: an answer is a pure function of the question and of the account database
+				// (first matching row), whatever went through the caches before - and asking changes nothing for later resolutions
+				q := directLookups[op.Arg]
+				c := users
+				if q.group {
+					c = groups
+				}
+				got := ""
+				if q.byName {
+					got = c.LookupName(q.arg)
+				} else {
+					got = c.LookupID(q.arg)
+				}
+				if got != q.want {
+					fail("C15 direct-lookup-answer", "step %d %v: %s = %q, the account database says %q", step, op, q.desc, got, q.want)
+				}
+				log = append(log, fmt.Sprintf("%v=%s", op, got))
 			case "resolve", "cr":
 				var h *held
 				if op.Kind == "cr" {
@@ -254,6 +283,59 @@ func runC15History(hist []c15Op) (viol []c15Viol, outcome string) {
 	return viol, strings.Join(log, " ")
 }
 
+type directLookup struct {
+	group, byName bool
+	arg, want     string
+	desc          string
+}
+
+// directLookups: EntityCache.LookupID / LookupName for ids and names with one row, two rows (alias), no row.
+var directLookups = func() []directLookup {
+	var out []directLookup
+	db := accountDB()
+	for _, id := range []string{"1000", "1001", "48", "77777"} {
+		w := ""
+		for _, u := range db.Users {
+			if u.Uid == id {
+				w = u.Username
+				break
+			}
+		}
+		out = append(out, directLookup{false, false, id, w, "users.LookupID(" + id + ")"})
+	}
+	for _, n := range []string{"alice", "al", "bob", "nobody-here"} {
+		w := ""
+		for _, u := range db.Users {
+			if u.Username == n {
+				w = u.Uid
+				break
+			}
+		}
+		out = append(out, directLookup{false, true, n, w, "users.LookupName(" + n + ")"})
+	}
+	for _, id := range []string{"1000", "42", "77777"} {
+		w := ""
+		for _, g := range db.Groups {
+			if g.Gid == id {
+				w = g.Name
+				break
+			}
+		}
+		out = append(out, directLookup{true, false, id, w, "groups.LookupID(" + id + ")"})
+	}
+	for _, n := range []string{"staff", "st", "ops"} {
+		w := ""
+		for _, g := range db.Groups {
+			if g.Name == n {
+				w = g.Gid
+				break
+			}
+		}
+		out = append(out, directLookup{true, true, n, w, "groups.LookupName(" + n + ")"})
+	}
+	return out
+}()
+
 type c15Job struct {
 	Hists [][]c15Op
 }
@@ -304,6 +386,10 @@ func c15Histories(maxLen int) [][]c15Op {
 			ops = append(ops, c15Op{"cr", g})
 		}
 	}
+	for i := range directLookups {
+		ops = append(ops, c15Op{"lookup", i})
+	}
+	ops = append(ops, c15Op{"tick", 0})
 	var out [][]c15Op
 	var rec func(cur []c15Op, nEvents int)
 	rec = func(cur []c15Op, nEvents int) {
@@ -677,7 +763,7 @@ func checkC15(tier, raceBin string) int {
 	// the per-call clauses (inputs intact, coalescing again / from a fresh parse gives an equal event) over
 	// every group the C09 enumerations produce (all st_mode values, all record types single / repeated /
 	// without SYSCALL, every native syscall, every arrangement of auxiliary records, non-ASCII and relative names)
-	enumx.Run(run, "C15", []string{"c15:c09-modes", "c15:c09-groups", "c15:c09-singles", "c15:c09-repeats", "c15:c09-names", "c15:c09-syscalls", "c15:c09-missing", "c15:c09-times", "c15:c09-outcomes"}, tier, 16, true)
+	enumx.Run(run, "C15", []string{"c15:c09-modes", "c15:c09-groups", "c15:c09-singles", "c15:c09-repeats", "c15:c09-names", "c15:c09-syscalls", "c15:c09-missing", "c15:c09-times", "c15:c09-outcomes", "c15:c09-relations"}, tier, 16, true)
 	hs := c15Histories(maxLen)
 	var jobs []interface{}
 	n := 64
